@@ -25,6 +25,45 @@ def split_lines(data):
     return [list(p) for p in parts]
 
 
+ENV_FAILURE = ("fatal error: runtime", "out of memory", "cannot allocate memory", "failed to create new OS thread",
+               "resource temporarily unavailable", "too many open files")
+
+
+def run_cmds(ctx, jobs, timeout=120):
+    """like ctx.run_many, but keeps the whole stderr: a crash must be told from a resource failure of the sandbox"""
+    import subprocess
+    from concurrent.futures import ThreadPoolExecutor
+
+    def one(j):
+        fin = open(j["stdin"], "rb") if j.get("stdin") else subprocess.DEVNULL
+        try:
+            p = subprocess.run(j["argv"], stdin=fin, capture_output=True, timeout=timeout)
+            return {"rc": p.returncode, "out": p.stdout, "err": p.stderr.decode("utf8", "replace"), "timeout": False}
+        except subprocess.TimeoutExpired as ex:
+            return {"rc": -1, "out": ex.stdout or b"", "err": "timeout", "timeout": True}
+        finally:
+            if j.get("stdin"):
+                fin.close()
+    with ThreadPoolExecutor(max_workers=vlib.NCPU) as ex:
+        res = list(ex.map(one, jobs))
+    for k, (j, r) in enumerate(zip(jobs, res)):
+        if r["rc"] != 0:
+            # a round-trip defect is deterministic: re-run a failed command once; a failure that does not
+            # reproduce (crash under the load of the shared sandbox, scheduling race: not C02's subject) is
+            # written to the evidence as a note and the second run is used
+            r2 = one(j)
+            if r2["rc"] == 0:
+                ctx.extra.setdefault("notes", []).append("transient failure (not reproduced on re-run) of %s: rc=%s %s" % (
+                    " ".join(j["argv"][1:]), r["rc"], "\n".join(l for l in r["err"].splitlines() if "level=info" not in l)[:500]))
+                vlib.log("transient command failure rc=%s: %s" % (r["rc"], " ".join(j["argv"])))
+                res[k] = r = r2
+        if r["rc"] != 0 and any(k in r["err"] for k in ENV_FAILURE):
+            raise vlib.Inconclusive("resource failure of the sandbox while running %s: %s" % (" ".join(j["argv"]), r["err"][:400]))
+        # what matters of stderr: the lines that are not progress information
+        r["err"] = "\n".join(l for l in r["err"].splitlines() if "level=info" not in l)[:600]
+    return res
+
+
 def command_events(ctx, thorough):
     """obiconvert | obiconvert on files written by the library writer (shift 33 and 64)."""
     bindir = ctx.build_cmds(["obiconvert"])
@@ -46,7 +85,7 @@ def command_events(ctx, thorough):
             else:
                 argv = argv + [f["file"]]
             s1.append({"f": f, "o1": o1, "argv": argv, "stdin": stdin})
-    r1 = ctx.run_many([{"argv": j["argv"], "stdin": j["stdin"]} for j in s1], timeout=120)
+    r1 = run_cmds(ctx, [{"argv": j["argv"], "stdin": j["stdin"]} for j in s1])
     for j, r in zip(s1, r1):
         j["res"] = r
         j["out"] = ctx.path("s1_%d.out" % id(j))
@@ -56,7 +95,7 @@ def command_events(ctx, thorough):
     for j in s1:
         for o2 in ("same", "fasta", "fastq"):
             s2.append({"j": j, "o2": o2, "argv": [conv, "--max-cpu", "2"] + OUTFLAG[o2]})
-    r2 = ctx.run_many([{"argv": x["argv"], "stdin": x["j"]["out"]} for x in s2], timeout=120)
+    r2 = run_cmds(ctx, [{"argv": x["argv"], "stdin": x["j"]["out"]} for x in s2])
     evs = []
     for x, r in zip(s2, r2):
         j = x["j"]
@@ -68,7 +107,7 @@ def command_events(ctx, thorough):
                             " | " + " ".join(["obiconvert"] + x["argv"][1:]),
                     "rc1": j["res"]["rc"], "rc2": r["rc"], "hung": 1 if (j["res"]["timeout"] or r["timeout"]) else 0,
                     "t0": split_lines(open(f["file"], "rb").read()), "t1": split_lines(j["res"]["out"]),
-                    "t2": split_lines(r["out"]), "err": (j["res"]["err"] + r["err"])[-300:]})
+                    "t2": split_lines(r["out"]), "err": (j["res"]["err"] + " | " + r["err"])[:800]})
     return evs
 
 
@@ -93,7 +132,7 @@ def report_rejects(ctx, events, rejects):
         else:
             ctx.violation("C02.trace.cmd." + why, "%s%d->%s->%s" % (ev["infmt"], ev["si"], ev["out1"], ev["out2"]),
                           "%s rejected by RoundTripTrace (%s): rc=%d,%d t1=%s t2=%s %s" %
-                          (ev["argv"], why, ev["rc1"], ev["rc2"], text_of(ev["t1"], 2), text_of(ev["t2"], 2), ev.get("err", "")[-200:]), ev)
+                          (ev["argv"], why, ev["rc1"], ev["rc2"], text_of(ev["t1"], 2), text_of(ev["t2"], 2), ev.get("err", "")[:400]), ev)
 
 
 def main(ctx):
@@ -128,9 +167,12 @@ def main(ctx):
     ctx.extra["model_counterexample_of_the_as_written_scanner"] = "found by TLC (JsonHeader_aswritten.cfg violates ScannerStop)"
     rt_cases = ctx.path("rt_cases.ndjson")
     ctx.tlc_model("RoundTrip", "RoundTrip_thorough.cfg" if thorough else "RoundTrip_quick.cfg",
-                  env={"VERIF_CASES": rt_cases}, timeout=1500, workers=4)
-    a = vlib.read_cases(hdr_cases)
-    b = vlib.read_cases(rt_cases)
+                  env={"VERIF_CASES": rt_cases}, timeout=1500, workers=1 if thorough else 4)   # thorough lines exceed 8 KiB: one writer
+    try:
+        a = vlib.read_cases(hdr_cases)
+        b = vlib.read_cases(rt_cases)
+    except ValueError as ex:
+        raise vlib.Inconclusive("torn line in the cases exported by TLC: %s" % ex)
     ctx.expect_vacuity("exported title lines", len(a))
     ctx.expect_vacuity("exported record cases", len(b))
     ctx.extra["exported_title_lines"] = len(a)
@@ -141,19 +183,19 @@ def main(ctx):
     res = ctx.path("res.ndjson")
     ctx.harness(["replay", "C02", "--cases", allc, "--out", res], timeout=1500)
     summ = ctx.add_results(res)
-    want = 6 * len(a) + 2 * len(b)      # 2 header parsers x 3 entry points / 2 header parsers
+    want = 6 * len(a) + 2 * len(b) + sum(len(c.get("badq", [])) for c in b)   # 2 header parsers x 3 entry points / 2 header parsers / malformed texts
     if summ["checked"] != want:
         raise vlib.Inconclusive("replayed %d comparisons, %d expected" % (summ["checked"], want))
     for need in ("val/quote-brace/notail/json", "val/quote-brace/tail/guessed", "val/odd-quotes/notail/guessed",
                  "key/quote-brace/tail/json", "nested/escapes/notail/json", "two/odd-quotes/tail/guessed",
                  "defn/quote-brace/notail/json", "defn/plain/tail/guessed",
                  "fasta/special/json", "fastq/special+def/guessed", "fastq/nested/json", "fasta/none/guessed",
-                 "fastq/bigint/json", "fasta/mapint+def/json"):
+                 "fastq/bigint/json", "fasta/mapint+def/json", "reject/shorter", "reject/longer"):
         ctx.expect_vacuity("class " + need, ctx.classes.get(need, 0))
     # T ---------------------------------------------------------------------------------------
     trace = ctx.path("trace.ndjson")
     clsf = ctx.path("gen_classes.json")
-    n = 3000 if thorough else 300
+    n = 5000 if thorough else 300
     ctx.harness(["record", "C02", "--out", trace, "--n", n, "--opt", "classes=" + clsf], timeout=900)
     gen = json.load(open(clsf))
     for need in ("shape/string", "shape/int", "shape/float", "shape/bool", "shape/mapint", "shape/mapstr", "shape/slice",
